@@ -34,8 +34,84 @@ def ops_of(tree, acc=None):
     return acc
 
 
+# ---------------------------------------------------------------------------------------------------------------------
+# IEEE pass: the tree the specification assigns to a text, evaluated in double arithmetic.  The exact rationals of the
+# specification decide WHICH tree a text denotes; with operands such as 1E+16, 1, 1, 1 or 0.1, 0.1, 0.1, 0.4 the value of
+# that tree in doubles differs from the value of every other grouping in the last place (or grossly), so the grouping the
+# library really used is observable where exact arithmetic cannot tell ((a+b)+(c+d) from ((a+b)+c)+d).
+FLOAT_ENVS = [[1e16, 1.0, 1.0, 1.0], [0.1, 0.1, 0.1, 0.4], [0.1, 0.2, 0.3, 0.6], [1e16, -1e16, 1.0, 3.0],
+              [3.0, 1e-17, 1.0, -1e17], [0.7, 0.1, 1e15, 0.3]]
+IEEE_OPS = {'+', '-', '*', '/', '=', '<>', '<', '>', '<=', '>='}
+
+
+class _Div0(Exception):
+    pass
+
+
+def ieee_ok(tree):
+    k = tree['k']
+    if k == 'bin':
+        return tree['op'] in IEEE_OPS and ieee_ok(tree['l']) and ieee_ok(tree['r'])
+    if k in ('neg', 'paren'):
+        return ieee_ok(tree['x'])
+    return k in ('ref', 'num')
+
+
+def ieee_eval(tree, env):
+    k = tree['k']
+    if k == 'ref':
+        return env[tree['col'] - 1]
+    if k == 'num':
+        t = ''.join(map(chr, tree['txt']))
+        return float(t[:-1]) / 100 if t.endswith('%') else float(t)
+    if k == 'paren':
+        return ieee_eval(tree['x'], env)
+    if k == 'neg':
+        return -float(ieee_eval(tree['x'], env))
+    a, b = ieee_eval(tree['l'], env), ieee_eval(tree['r'], env)
+    op = tree['op']
+    if op in ('+', '-', '*', '/'):
+        a, b = float(a), float(b)          # TRUE counts 1, FALSE 0
+        if op == '/':
+            if b == 0:
+                raise _Div0()
+            return a / b
+        return a + b if op == '+' else a - b if op == '-' else a * b
+    if isinstance(a, bool) != isinstance(b, bool):      # a number is smaller than a logical value
+        lt = isinstance(b, bool)
+        return {'=': False, '<>': True, '<': lt, '<=': lt, '>': not lt, '>=': not lt}[op]
+    return {'=': a == b, '<>': a != b, '<': a < b, '<=': a <= b, '>': a > b, '>=': a >= b}[op]
+
+
+def ieee_case(text, tree, env):
+    """-> None if fine, else (expected, observed)"""
+    import math
+    try:
+        want = ieee_eval(tree, env)
+    except _Div0:
+        want = '#DIV/0!'
+    except OverflowError:
+        return None
+    if isinstance(want, float) and not math.isfinite(want):
+        return None
+    L = xl.lib()
+    try:
+        model, ev = xl.build_model({a: ('value', v) for a, v in zip(CELLS, env)}, {'Sheet1!Z1': text})
+        got = ev.evaluate('Sheet1!Z1')
+        if isinstance(got, L.xlerrors.ExcelError):
+            got = str(got.value)
+        elif isinstance(got, L.ft.ExcelType):
+            got = got.value
+    except BaseException as e:      # noqa
+        if isinstance(e, (KeyboardInterrupt, SystemExit)):
+            raise
+        got = 'exception ' + type(e).__name__
+    same = (got == want and isinstance(got, bool) == isinstance(want, bool)) if not isinstance(want, str) else got == want
+    return None if same else (want, got)
+
+
 def worker(blocks):
-    out = {'n': 0, 'open': 0, 'dis': [], 'samples': [], 'kinds': {}}
+    out = {'n': 0, 'open': 0, 'dis': [], 'samples': [], 'kinds': {}, 'ieee': 0}
     for b in blocks:
         st = pool.parse_block(b)
         case, exp = st['case'], st['res']
@@ -54,6 +130,15 @@ def worker(blocks):
         if ok is False:
             out['dis'].append({'case': {'formula': text, 'env': case['env'], 'kind': case['kind']}, 'exp': exp, 'obs': obs,
                                'features': {'kind': case['kind'], 'ops': ops_of(case['tree']), 'exp': klass(exp), 'obs': klass(obs)}})
+        if case['kind'] in ('triple', 'shape-min', 'shape-full', 'quad') and ieee_ok(case['tree']):
+            for fenv in FLOAT_ENVS:
+                out['ieee'] += 1
+                bad = ieee_case(text, case['tree'], fenv)
+                if bad:
+                    out['dis'].append({'case': {'formula': text, 'env_doubles': [repr(x) for x in fenv], 'kind': case['kind'] + '-ieee'},
+                                       'exp': repr(bad[0]), 'obs': repr(bad[1]),
+                                       'features': {'kind': case['kind'] + '-ieee', 'ops': ops_of(case['tree'])}})
+                    break
     return out
 
 
@@ -171,7 +256,9 @@ def run(run):
         for s in res['samples']:
             run.sample(s)
         for d in res['dis']:
-            run.disagree('formula', d['case'], d['exp'], d['obs'], d['features'], clause='value')
+            run.disagree('formula', d['case'], d['exp'], d['obs'], d['features'], clause='value' if 'ieee' not in d['features']['kind'] else 'value-in-doubles')
+        run.evaluations += res['ieee']
+        run.notes['ieee_evaluations'] = run.notes.get('ieee_evaluations', 0) + res['ieee']
     run.notes['cases_by_family'] = kinds
     # code -> spec: seeded deep formulas (<= 8 operators, nested / redundant parentheses, all literal
     # spellings, gaps), evaluated by the library, validated by TLC against Eval(Erase(ast))
